@@ -1,6 +1,8 @@
 SPECIFICATION TSpec
 CONSTANTS NOpt = 3
- MaxArgs = 0
  Tables = {}
+ ArgvSet = {}
+ Tables2 = {}
+ ArgvSet2 = {}
 INVARIANT AcceptExit
 CHECK_DEADLOCK FALSE
